@@ -25,6 +25,13 @@ type runner struct {
 // runSet loads the flow set in every order (or only the given one when
 // allOrders is false), runs the transactions, monitors and records the cases.
 func (r *runner) runSet(flows []Flow, txns []Txn, allOrders bool, label string) {
+	r.runSetRec(flows, txns, allOrders, label, true)
+}
+
+// runSetRec: record=false runs implementation + monitor only (the case is not
+// handed to the Coq model): used by the thorough tier to sweep spaces that are
+// too large to be evaluated case by case inside coqc.
+func (r *runner) runSetRec(flows []Flow, txns []Txn, allOrders bool, label string, record bool) {
 	o := r.o
 	orders := [][]int{}
 	if allOrders {
@@ -49,10 +56,16 @@ func (r *runner) runSet(flows []Flow, txns []Txn, allOrders bool, label string) 
 				nontrivial = true
 			}
 		}
-		idx := o.Case(suite, coqCase(&k), k, nontrivial)
-		o.Count("flows=" + fmt.Sprint(len(flows)))
-		o.Count("gen=" + label)
-		o.CountN("transactions", len(k.Obs))
+		idx := -1
+		if record {
+			idx = o.Case(suite, coqCase(&k), k, nontrivial)
+			o.Count("flows=" + fmt.Sprint(len(flows)))
+			o.Count("gen=" + label)
+			o.CountN("transactions", len(k.Obs))
+		} else {
+			o.Count("monitor-only:" + label)
+			o.CountN("monitor-only-transactions", len(k.Obs))
+		}
 		anyErr := false
 		for _, e := range k.AddErr {
 			anyErr = anyErr || e
